@@ -442,7 +442,14 @@ type Cond struct {
 // CondsAt returns the branch conditions that hold on entry to b on every
 // path (dominator-tree walk; the nilness-analyzer discipline).
 func CondsAt(b *ssa.BasicBlock) []Cond {
+	return condsAtD(b, 0)
+}
+
+func condsAtD(b *ssa.BasicBlock, depth int) []Cond {
 	var out []Cond
+	if depth > 4 {
+		return nil
+	}
 	for cur := b; cur != nil; cur = cur.Idom() {
 		d := cur.Idom()
 		if d == nil || len(cur.Preds) != 1 || cur.Preds[0] != d {
@@ -453,18 +460,47 @@ func CondsAt(b *ssa.BasicBlock) []Cond {
 			continue
 		}
 		if d.Succs[0] == cur && d.Succs[1] != cur {
-			out = append(out, flatten(Cond{iff.Cond, true, iff})...)
+			out = append(out, flattenD(Cond{iff.Cond, true, iff}, depth)...)
 		} else if d.Succs[1] == cur && d.Succs[0] != cur {
-			out = append(out, flatten(Cond{iff.Cond, false, iff})...)
+			out = append(out, flattenD(Cond{iff.Cond, false, iff}, depth)...)
 		}
 	}
 	return out
 }
 
-// flatten pushes negations inward: !x true  =>  x false.
+// flatten pushes negations inward (!x true => x false) and opens the phi
+// that go/ssa builds for a short-circuit expression used as a value (e.g. a
+// tagless switch case `a && b`): phi[false, ..., X] known true means the path
+// through X's edge was taken, so X holds together with everything that held
+// at the end of that predecessor; dually for `||` known false.
 func flatten(c Cond) []Cond {
+	return flattenD(c, 0)
+}
+
+func flattenD(c Cond, depth int) []Cond {
 	if u, ok := c.V.(*ssa.UnOp); ok && u.Op == token.NOT {
-		return flatten(Cond{u.X, !c.Pos, c.If})
+		return flattenD(Cond{u.X, !c.Pos, c.If}, depth)
+	}
+	if ph, ok := c.V.(*ssa.Phi); ok && depth < 4 {
+		want := "false"
+		if !c.Pos {
+			want = "true"
+		}
+		idx := -1
+		n := 0
+		for i, e := range ph.Edges {
+			if cst, ok := e.(*ssa.Const); ok && cst.Value != nil && cst.Value.ExactString() == want {
+				continue
+			}
+			idx = i
+			n++
+		}
+		if n == 1 {
+			out := []Cond{c}
+			out = append(out, flattenD(Cond{ph.Edges[idx], c.Pos, c.If}, depth+1)...)
+			out = append(out, condsAtD(ph.Block().Preds[idx], depth+1)...)
+			return out
+		}
 	}
 	return []Cond{c}
 }
